@@ -26,14 +26,15 @@ CONSTANTS Cfgs,              \* bounded input domain: set of task shapes
           ExecCodes,         \* exit codes of the executable
           DevEnvUnescaped,   \* D21: export K="v" unescaped, a double quote in v breaks the script
           DevIgnorePreFail,  \* a failing pre_exec does not end the script
-          DevRetAfterPost    \* RP_RET is overwritten by the post_exec commands
+          DevRetAfterPost,   \* RP_RET is overwritten by the post_exec commands
+          DevErrDirFromOut   \* whether stderr goes into the sandbox is decided by the stdout name
 
 VARIABLES cfg, F, xrc,
-          lpc, lidx, lran, lret, lcode, cwd,
+          lpc, lidx, lran, lret, lcode, cwd, outto, errto,
           pc, idx, ran, execd, ret, code, envs, arrived,
           printed
 
-vars == <<cfg, F, xrc, lpc, lidx, lran, lret, lcode, cwd,
+vars == <<cfg, F, xrc, lpc, lidx, lran, lret, lcode, cwd, outto, errto,
           pc, idx, ran, execd, ret, code, envs, arrived, printed>>
 
 Rk == Ranks(cfg)
@@ -42,6 +43,7 @@ Init ==
   /\ cfg \in Cfgs
   /\ F = {} /\ xrc = [r \in Ranks(cfg) |-> 0]
   /\ lpc = "cd" /\ lidx = 1 /\ lran = <<>> /\ lret = 0 /\ lcode = -1 /\ cwd = "any"
+  /\ outto = [dir |-> "none", name |-> "none"] /\ errto = [dir |-> "none", name |-> "none"]
   /\ pc = [r \in Ranks(cfg) |-> "idle"]
   /\ idx = [r \in Ranks(cfg) |-> 1]
   /\ ran = [r \in Ranks(cfg) |-> <<>>]
@@ -52,7 +54,7 @@ Init ==
   /\ arrived = {}
   /\ printed = FALSE
 
-LVars == <<lpc, lidx, lran, lret, lcode, cwd>>
+LVars == <<lpc, lidx, lran, lret, lcode, cwd, outto, errto>>
 RVars == <<pc, idx, ran, execd, ret, code, envs, arrived>>
 
 (* ------------------------------------------------------------------------ *)
@@ -61,12 +63,12 @@ RVars == <<pc, idx, ran, execd, ret, code, envs, arrived>>
 Cd ==
   /\ lpc = "cd"
   /\ cwd' = "sandbox" /\ lpc' = "lenv"
-  /\ UNCHANGED <<cfg, F, xrc, lidx, lran, lret, lcode, printed>> /\ UNCHANGED RVars
+  /\ UNCHANGED <<cfg, F, xrc, lidx, lran, lret, lcode, outto, errto, printed>> /\ UNCHANGED RVars
 
 LEnv ==                                   \* . $RP_PILOT_SANDBOX/env/lm_xxx.sh
   /\ lpc = "lenv"
   /\ lpc' = "prel" /\ lidx' = 1
-  /\ UNCHANGED <<cfg, F, xrc, lran, lret, lcode, cwd, printed>> /\ UNCHANGED RVars
+  /\ UNCHANGED <<cfg, F, xrc, lran, lret, lcode, cwd, outto, errto, printed>> /\ UNCHANGED RVars
 
 \* "cmd || rp_error sig" of the launch script
 LCmd(sig, n, here, next) ==
@@ -82,28 +84,41 @@ LCmd(sig, n, here, next) ==
                ELSE /\ F' = F \cup {Exe(sig, lidx, L)}
                     /\ lcode' = FailCode /\ lpc' = "done"
                     /\ UNCHANGED lidx
-  /\ UNCHANGED <<cfg, xrc, lret, cwd, printed>> /\ UNCHANGED RVars
+  /\ UNCHANGED <<cfg, xrc, lret, cwd, outto, errto, printed>> /\ UNCHANGED RVars
 
 PreLaunch  == LCmd("pre_launch",  cfg.prel,  "prel",  "launch")
 PostLaunch == LCmd("post_launch", cfg.postl, "postl", "exit")
 
+\* ( launcher exec-script ) 1> stdout-file 2> stderr-file: the shell opens both
+\* files first; a target it cannot open fails the launch (nothing runs, status 1)
+ErrTarget ==
+  IF ~DevErrDirFromOut THEN FileOf(cfg.err, "err")
+  ELSE IF cfg.out = "abs"
+       THEN [dir |-> IF cfg.err = "abs" THEN "as-given" ELSE "cwd", name |-> FileOf(cfg.err, "err").name]
+       ELSE [dir |-> IF cfg.err = "abs" THEN "unusable" ELSE "sandbox", name |-> FileOf(cfg.err, "err").name]
+
 Launch ==                                 \* the launcher starts every rank
   /\ lpc = "launch"
-  /\ lpc' = "wait"
-  /\ pc' = [r \in Rk |-> "env"]
-  /\ UNCHANGED <<cfg, F, xrc, lidx, lran, lret, lcode, cwd, printed,
+  /\ outto' = FileOf(cfg.out, "out") /\ errto' = ErrTarget
+  /\ IF ErrTarget.dir = "unusable"
+     THEN /\ lret' = 1 /\ lpc' = "postl" /\ lidx' = 1
+          /\ UNCHANGED pc
+     ELSE /\ lpc' = "wait"
+          /\ pc' = [r \in Rk |-> "env"]
+          /\ UNCHANGED <<lret, lidx>>
+  /\ UNCHANGED <<cfg, F, xrc, lran, lcode, cwd, printed,
                  idx, ran, execd, ret, code, envs, arrived>>
 
 Collect ==                                \* RP_RET=$? of the launcher
   /\ lpc = "wait" /\ \A r \in Rk : pc[r] = "done"
   /\ lret' = LauncherRet([i \in 1 .. cfg.ranks |-> code[i - 1]])
   /\ lpc' = "postl" /\ lidx' = 1
-  /\ UNCHANGED <<cfg, F, xrc, lran, lcode, cwd, printed>> /\ UNCHANGED RVars
+  /\ UNCHANGED <<cfg, F, xrc, lran, lcode, cwd, outto, errto, printed>> /\ UNCHANGED RVars
 
 LExit ==
   /\ lpc = "exit"
   /\ lcode' = lret /\ lpc' = "done"
-  /\ UNCHANGED <<cfg, F, xrc, lidx, lran, lret, cwd, printed>> /\ UNCHANGED RVars
+  /\ UNCHANGED <<cfg, F, xrc, lidx, lran, lret, cwd, outto, errto, printed>> /\ UNCHANGED RVars
 
 (* ------------------------------------------------------------------------ *)
 (* exec script, one instance per rank                                       *)
@@ -263,11 +278,18 @@ InvLaunch ==
     /\ (~FailedOn(F, "pre_launch", L) /\ ~FailedOn(F, "post_launch", L)) =>
           lcode = LauncherRet([i \in 1 .. cfg.ranks |-> code[i - 1]])
 
+\* stdout / stderr of the executable go to the described files
+InvOutFiles ==
+  (\E r \in Rk : pc[r] # "idle") =>
+    /\ outto = FileOf(cfg.out, "out")
+    /\ errto = FileOf(cfg.err, "err")
+
 \* the step machine and the functional oracle of the monitor agree
 InvAgree ==
   lpc = "done" =>
     LET X == LaunchRun(cfg, F, XrcSeq) IN
     /\ X.ran = lran /\ X.code = lcode
+    /\ X.launched => (X.out = outto /\ X.err = errto)
     /\ X.launched = (\A r \in Rk : pc[r] = "done")
     /\ X.launched => \A r \in Rk :
          /\ X.ranks[r + 1].ran = ran[r]
